@@ -42,6 +42,8 @@ def ser_value(v):
             out.append('{' + ser_value(a[1]) + '}')
         elif a[0] == '#':
             out.append('$#')
+        elif a[0] == 'f':
+            out.append('${%d%s}' % (a[1], (':' + a[2]) if a[2] else ''))
         else:
             raise ValueError('bad atom %r' % (a,))
     return ''.join(out)
@@ -171,7 +173,20 @@ def den_value(v, ctr, text=None):
             out.append('{' + den_value(a[1], ctr, text) + '}')
         elif a[0] == '#':
             out.append(text if text is not None else '')
+        elif a[0] == 'f':
+            # explicit field ${n[:placeholder]}: kept as a private-use sentinel so that string-level merging still works; a renderer
+            # turns it into the placeholder (default field callback) or into a numbered marker (C13)
+            out.append('%s%d%s%s%s' % (F_OPEN, a[1], F_SEP, a[2] or '', F_CLOSE))
     return ''.join(out)
+
+
+F_OPEN, F_SEP, F_CLOSE = '\ue000', '\ue001', '\ue002'
+
+
+def strip_fields(s):
+    "default field callback: a field prints its placeholder"
+    import re as _re
+    return _re.sub(F_OPEN + r'\d+' + F_SEP + '([^' + F_CLOSE + ']*)' + F_CLOSE, lambda m: m.group(1), s)
 
 
 class ONode:
